@@ -1,11 +1,11 @@
 package main
 
 import (
-	"verif/mc/sphere"
-	"strconv"
 	"fmt"
 	"math"
+	"strconv"
 	"strings"
+	"verif/mc/sphere"
 
 	"github.com/tidwall/geojson"
 	"github.com/tidwall/geojson/geometry"
@@ -342,6 +342,21 @@ func runC08(r *rt.Run) {
 			}
 		}
 	})
+	// "bbox" members of every shape and positions of mixed dimensionality
+	bb := append(docgen.BBoxDocs(), docgen.DimDocs()...)
+	r.Bounds["bbox_and_dimension_documents"] = len(bb)
+	r.ParFor(len(bb), func(i int, w *rt.Worker) {
+		w.States++
+		for d := 0; d < 2; d++ {
+			for _, os := range near[d] {
+				w.Evals++
+				c08One(bb[i], bases[d], os, bboxProbes, func(class string, c rt.Case, exp, got string) {
+					c.X["probes"] = "bbox"
+					w.Fail(class+"-bbox", func() (rt.Case, string, string) { return c, trunc(exp), trunc(got) })
+				})
+			}
+		}
+	})
 	strip := circleStripDocs()
 	r.Bounds["circle_rim_documents"] = len(strip)
 	r.ParFor(len(strip), func(i int, w *rt.Worker) {
@@ -397,6 +412,15 @@ func overflowDocs() []string {
 		}
 	}
 	return out
+}
+
+// bboxProbes: points and small shapes inside the geometries of BBoxDocs /
+// DimDocs but outside what a misread "bbox" would give.
+var bboxProbes = []geojson.Object{
+	geojson.NewPoint(geometry.Point{X: 7, Y: 7}), geojson.NewPoint(geometry.Point{X: 9, Y: 9}), geojson.NewPoint(geometry.Point{X: 20.5, Y: 0.5}),
+	geojson.NewPoint(geometry.Point{X: 30, Y: 30}), geojson.NewPoint(geometry.Point{X: 25, Y: 35}),
+	geojson.NewRect(geometry.Rect{Min: geometry.Point{X: 6, Y: 2}, Max: geometry.Point{X: 9, Y: 4}}),
+	geojson.NewLineString(geometry.NewLine([]geometry.Point{{X: 1, Y: 1}, {X: 9, Y: 9}}, nil)),
 }
 
 func circleStripDocs() []string {
